@@ -58,6 +58,9 @@ def handle : Handler := fun op args =>
       "ok " ++ showRat (vshNormSq vshY l m) ++ " " ++ showRat (vshNormSq vshPsi l m) ++ " " ++ showRat i.1 ++ " " ++ showRat i.2
   -- point-wise harmonics: Boost and the summation are not modelled; the comparison side uses the
   -- model's coefficient tables (c17.vshy / c17.vshpsi) and an independent reference
+  -- dense scans of the accuracy clauses: decided on the comparison side against the reference only
+  | "c17.inverfscan" => withArgs (do let sg ← pInt; let a ← pRat; let b ← pRat; let st ← pRat; let o ← pRat; pure (sg, a, b, st, o)) args fun _ => "ok -"
+  | "c17.dawscan" => withArgs (do let sg ← pInt; let a ← pRat; let b ← pRat; let n ← pNat; let o ← pRat; pure (sg, a, b, n, o)) args fun _ => "ok -"
   | "c17.sph" => withArgs (do let l ← pInt; let m ← pInt; let t ← pRat; let p ← pRat; pure (l, m, t, p)) args fun _ => "ok -"
   | "c17.vshY" => withArgs (do let l ← pInt; let m ← pInt; let t ← pRat; let p ← pRat; pure (l, m, t, p)) args fun _ => "ok -"
   | "c17.vshPsi" => withArgs (do let l ← pInt; let m ← pInt; let t ← pRat; let p ← pRat; pure (l, m, t, p)) args fun _ => "ok -"
